@@ -544,4 +544,144 @@ theorem rngDifferenceVer_exact (r : VRange) (v : Version) (hr : r.WF) (htr : r.T
       simp [key h2, h1]
 
 end RC
+/-! ### defined-ness, for members whose lower bounds are not local builds -/
+
+theorem rcUnionSingle_ok (x y : RC) : ∃ o, rcUnionSingle x y = .ok o := by
+  cases x with
+  | ver a =>
+    simp only [rcUnionSingle]
+    repeat' split
+    all_goals exact ⟨_, rfl⟩
+  | rng r =>
+    cases y with
+    | ver v =>
+      simp only [rcUnionSingle]
+      split
+      · exact ⟨_, rfl⟩
+      · split
+        · exact ⟨_, rfl⟩
+        · split <;> exact ⟨_, rfl⟩
+    | rng s =>
+      cases hc : (!(VRange.edgesTouch r s) && (s.isStrictlyLower r || r.isStrictlyLower s))
+      · exact ⟨_, VRange.rcUnionSingle_rng_some r s hc⟩
+      · exact ⟨_, VRange.rcUnionSingle_rng_none r s hc⟩
+
+namespace RC
+
+/-- **`a.union(b)` for two members is defined and exact** -/
+theorem union_total (x y : RC) (hx : x.WF) (hy : y.WF) (htx : x.Tidy) (hty : y.Tidy)
+    (hloc : ∀ a b, x = ver a → y = ver b → (a.allows b = true ↔ b.allows a = true))
+    (hn : NoLocalLower [x, y]) :
+    ∃ res, RC.union x y = .ok res ∧
+      ∀ p, p.wf = true → Regular (x.bounds ++ y.bounds) p → res.allowsPlain p = (x.allows p || y.allows p) := by
+  have hex : ∃ res, RC.union x y = .ok res := by
+    unfold RC.union
+    obtain ⟨o, ho⟩ := rcUnionSingle_ok x y
+    simp only [ho, bind, Except.bind]
+    cases o with
+    | some u => exact ⟨_, rfl⟩
+    | none =>
+      have hgood : Good [x, y] := by
+        refine ⟨?_, ?_⟩
+        · intro c hc
+          simp only [List.mem_cons, List.mem_nil_iff, or_false] at hc
+          rcases hc with rfl | rfl
+          · exact ⟨hx, htx⟩
+          · exact ⟨hy, hty⟩
+        · intro u w hu' hw huw
+          simp only [List.mem_cons, List.mem_nil_iff, or_false] at hu' hw
+          rcases hu' with hu' | hu' <;> rcases hw with hw | hw
+          · have : u = w := by rw [← hu'] at hw; cases hw; rfl
+            subst this; exact huw
+          · exact (hloc u w hu'.symm hw.symm).1 huw
+          · exact (hloc w u hw.symm hu'.symm).2 huw
+          · have : u = w := by rw [← hu'] at hw; cases hw; rfl
+            subst this; exact huw
+      obtain ⟨res, hres, _⟩ := unionOfFlat_total [x, y] hgood hn
+      exact ⟨res, hres⟩
+  obtain ⟨res, hres⟩ := hex
+  exact ⟨res, hres, union_exact x y hx hy htx hty hloc res hres⟩
+
+end RC
+
+namespace VRange
+
+/-- **range ∖ range is defined and exact** (hypotheses of `difference_exact`, and none of `a.min`, `a.max`,
+`b.max` is a local build) -/
+theorem difference_total (a b : VRange) (ha : a.WF) (hb : b.WF) (hta : a.Tidy) (htb : b.Tidy)
+    (hec : EndsConsistent a b)
+    (hnl : ∀ m M, a.min = some m → a.max = some M → m.allows M = false ∧ M.allows m = false)
+    (hloc : ∀ m, (a.min = some m ∨ a.max = some m ∨ b.max = some m) → m.isLocal = false) :
+    ∃ res, RC.rngDifferenceRng a b = .ok res ∧
+      ∀ p, p.wf = true → Regular (a.bounds ++ b.bounds) p → res.allowsPlain p = (a.allows p && !b.allows p) := by
+  have hex : ∃ res, RC.rngDifferenceRng a b = .ok res := by
+    rw [rngDifferenceRng_eq]
+    obtain ⟨any, hany⟩ := RC.allowsAny_ok (.rng a) (.rng b)
+    simp only [hany, bind, Except.bind]
+    cases any with
+    | false => exact ⟨_, rfl⟩
+    | true =>
+      simp only [Bool.not_true, Bool.false_eq_true, if_false]
+      obtain ⟨o1, e1, s1⟩ := beforePiece_spec a b ha hb hta
+      obtain ⟨o2, e2, s2⟩ := afterPiece_spec a b ha hb hta hec
+      simp only [e1, e2]
+      cases o1 with
+      | none => cases o2 <;> exact ⟨_, rfl⟩
+      | some x =>
+        cases o2 with
+        | none => exact ⟨_, rfl⟩
+        | some y =>
+          obtain ⟨xwf, xt, xb, xsem, xsrc⟩ := s1
+          obtain ⟨ywf, yt, yb, ysem, ysrc⟩ := s2
+          have hgood : Good [x, y] := by
+            refine ⟨?_, ?_⟩
+            · intro c hc
+              simp only [List.mem_cons, List.mem_nil_iff, or_false] at hc
+              rcases hc with rfl | rfl
+              · exact ⟨xwf, xt⟩
+              · exact ⟨ywf, yt⟩
+            · intro u w hu hw huw
+              simp only [List.mem_cons, List.mem_nil_iff, or_false] at hu hw
+              rcases hu with hu | hu <;> rcases hw with hw | hw
+              · have : u = w := by rw [← hu] at hw; cases hw; rfl
+                subst this; exact huw
+              · rw [(hnl u w (xsrc u hu.symm) (ysrc w hw.symm)).1] at huw; cases huw
+              · rw [(hnl w u (xsrc w hw.symm) (ysrc u hu.symm)).2] at huw; cases huw
+              · have : u = w := by rw [← hu] at hw; cases hw; rfl
+                subst this; exact huw
+          -- lower bounds of the pieces: `a.min` resp. `b.max` / `a.max`
+          have hx : ∀ m, x.min = some m → a.min = some m := by
+            intro m hm
+            unfold beforePiece at e1
+            split at e1
+            · cases e1
+            · split at e1
+              · split at e1
+                · cases e1; simpa [RC.min] using hm ▸ (by assumption)
+                · cases e1
+              · cases e1; simpa [RC.min] using hm
+          have hy : ∀ m, y.min = some m → (a.max = some m ∨ b.max = some m) := by
+            intro m hm
+            unfold afterPiece at e2
+            split at e2
+            · cases e2
+            · split at e2
+              · split at e2
+                · cases e2; left; simpa [RC.min] using hm ▸ (by assumption)
+                · cases e2
+              · cases e2; right; simpa [RC.min] using hm
+          have hn : NoLocalLower [x, y] := by
+            intro c hc m hm
+            simp only [List.mem_cons, List.mem_nil_iff, or_false] at hc
+            rcases hc with rfl | rfl
+            · exact hloc m (Or.inl (hx m hm))
+            · rcases hy m hm with h | h
+              · exact hloc m (Or.inr (Or.inl h))
+              · exact hloc m (Or.inr (Or.inr h))
+          obtain ⟨res, hres, _⟩ := unionOfFlat_total [x, y] hgood hn
+          exact ⟨res, hres⟩
+  obtain ⟨res, hres⟩ := hex
+  exact ⟨res, hres, difference_exact a b ha hb hta htb hec hnl res hres⟩
+
+end VRange
 end Poetry
